@@ -7,6 +7,7 @@ def owners(tag, kind):
         out.add(base)
     if kind == "TWCC" and base in ("C04", "C02"):
         out.add("C13")
+        out.add("C16")   # run-length and status-vector chunks, 1- and 2-octet deltas as they sit in a feedback packet
     if kind == "REMB" and tag in ("C02:roundtrip_value", "C03:bytes", "C04:value", "C04:valid_rejected"):
         out.add("C14")
     if tag == "C02:own_output_rejected":
@@ -39,7 +40,7 @@ def prop(pid, stages, **kw):
 
 WIRE_NOTE = "McWire enumerates every value of the star domains of spec/Domain.tla (all 15 packet kinds: one field at a time) and McWirePairs the pairwise domains (two fields or list lengths varied together, the varied element in the middle of a list); every emitted behaviour is replayed; random drivers add sampled values"
 
-prop("C01", lambda t, s: [("conc", n(t, 1, 10)), ("conc", n(t, 1, 10)), ("conc", n(t, 1, 10)), ("drive", "sizes", 0), ("drive", "soak", n(t, 70000, 300000)), ("mc", "Mc", n(t, "McFaults", "McFaults2")), ("mc", "Mc", "McFaultsDev"), ("drive", "fuzz", n(t, 1500, 40000)), ("drive", "bigdec", n(t, 0, 1)), ("drive", "amplify", 0)],
+prop("C01", lambda t, s: [("conc", n(t, 1, 10)), ("conc", n(t, 1, 10)), ("conc", n(t, 1, 10)), ("drive", "sizes", 0), ("drive", "soak", n(t, 70000, 300000)), ("mc", "Mc", n(t, "McFaults", "McFaults2")), ("mc", "Mc", "McFaultsDev"), ("drive", "fuzz", n(t, 1500, 40000)), ("drive", "bigdec", n(t, 2, 1)), ("drive", "amplify", 0)],
      exhaustive_note="McFaults enumerates every first-order fault of spec/Faults.tla on the tiny domain; every faulted buffer goes to all 16 packet decoders, 7 sub-decoders and the datagram decoder; McFaultsDev does the same from the encodings of the deviating model (SLI with PT 205, CCFB num_reports n-1), which are the ones the library's SLI and CCFB decoders accept")
 prop("C02", lambda t, s: [("mc", "Mc", "McWireUnk"), ("drive", "sizes", 0), ("drive", "dict", 0), ("mc", "Mc", "McWire"), ("mc", "Mc", "McWirePairs"), ("mc", "Mc", "McReuse"), ("drive", "reuserand", n(t, 300, 10000)), ("drive", "rt", n(t, 1500, 60000)), ("drive", "rtlist", n(t, 300, 10000)), ("drive", "bigframes", n(t, 0, 1)), ("drive", "recombine", n(t, 300, 10000))], exhaustive_note=WIRE_NOTE)
 prop("C03", lambda t, s: [("drive", "rtlist", n(t, 300, 10000)), ("drive", "sizes", 0), ("drive", "dict", 0), ("mc", "Mc", "McWire"), ("mc", "Mc", "McWirePairs"), ("mc", "Mc", "McVariants"), ("drive", "rt", n(t, 1500, 60000)), ("drive", "bigframes", n(t, 0, 1)), ("mc", "Mc", n(t, "McCompound", "McCompound4")), ("drive", "cprand", n(t, 200, 10000)), ("mc", "Mc", "McLoose"), ("drive", "errpaths", n(t, 200, 10000))], exhaustive_note=WIRE_NOTE)
@@ -87,7 +88,7 @@ prop("C16", lambda t, s: [("drive", "dict", 0), ("mc", "UnitsMc", "McUnitsThorou
 prop("C17", lambda t, s: [("drive", "dict", 0), ("mc", "Mc", "McWire"), ("mc", "Mc", "McWirePairs"), ("mc", "Mc", n(t, "McFaults", "McFaults2")), ("mc", "Mc", "McFaultsDev"), ("drive", "strings", n(t, 1500, 60000)), ("drive", "fuzz", n(t, 600, 30000)), ("drive", "cprand", n(t, 200, 10000))],
      exhaustive_note="String(), %v and %+v are applied to every star-domain value, to every packet any decoder accepted from the first-order faulted buffers, to all 256 values of PacketType, SDESType, BlockTypeType and TTLorHopLimitType, to all 2^16 XR chunks, and to REMB bitrates at every power of two and ten")
 
-prop("C18", lambda t, s: [("drive", "soak", n(t, 70000, 300000)), ("mc", "ConcurrencyMc", "McConc"), ("mc_broken", "ConcurrencyMc", "McConcBroken"), ("mc", "Mc", n(t, "McHist", "McHist4")), ("mc", "Mc", "McReuse"), ("mc", "Mc", "McReuseDev"),
+prop("C18", lambda t, s: [("mc", "Mc", "McLoose"), ("drive", "soak", n(t, 70000, 300000)), ("mc", "ConcurrencyMc", "McConc"), ("mc_broken", "ConcurrencyMc", "McConcBroken"), ("mc", "Mc", n(t, "McHist", "McHist4")), ("mc", "Mc", "McReuse"), ("mc", "Mc", "McReuseDev"),
                           ("drive", "histrand", n(t, 600, 30000)), ("drive", "reuserand", n(t, 600, 30000)), ("conc", n(t, 2, 40)), ("conc", n(t, 2, 40)), ("conc", n(t, 2, 40)), ("drive", "recombine", n(t, 200, 10000)), ("drive", "errpaths", n(t, 400, 20000))],
      exhaustive_note="McConc enumerates every interleaving of 3 goroutines x 2 calls (Begin/End steps) over 2 shared and 2 private packet values; McHist every call history of up to 3 (thorough: 4) calls out of 9 operations on 13 packet values; real schedules are sampled under the race detector",
      assumptions=["the Go race detector reports only the races that occur in the sampled schedules"])
